@@ -87,6 +87,12 @@ struct Prog {
     void eint() { w(0x4380); }
     void dint() { w(0x43C0); }
     void nop() { w(0); }
+    // the idle loop `brr -1`, now and then preceded by a CONDITIONAL self-branch (taken: the core idles there until a handler
+    // changes the flags; not taken: execution goes on -- only a taken self-branch may arm the fast-forward)
+    template <class R> void idle(R& rng) {
+        if (rng.chance(1, 3)) { brr(-1, 1 + rng.below(15)); if (rng.chance(1, 2)) inc(0); }
+        brr(-1);
+    }
     void inc(unsigned ax) { w(0x67D0 | (ax << 12)); }
     void dec(unsigned ax) { w(0x67E0 | (ax << 12)); }
     void add_imm(u16 imm, unsigned ax) { w(0x86C0 | (ax << 8)); w(imm); }
@@ -256,7 +262,7 @@ static void emit_dma_body(Prog& p, vh::Rng& rng) {
         if (rng.chance(1, 5)) ahbm_cfg(rng.below(3));
     }
     p.inc(0);
-    if (loop) p.br(top); else p.brr(-1);
+    if (loop) p.br(top); else p.idle(rng);
 }
 
 // a random program exercising interrupts, timers, the ICU, idle loops, calls and hardware loops
@@ -377,19 +383,19 @@ static Prog make_program(vh::Rng& rng, std::string& descr, bool io, int force_ki
     descr = "kind" + std::to_string(kind);
     switch (kind) {
     case 0: // pure idle
-        p.brr(-1);
+        p.idle(rng);
         break;
     case 1: // counting loop
         p.inc(0); p.brr(-2);
         break;
     case 2: // nops then idle
         for (unsigned i = 0, n = rng.below(6); i < n; ++i) p.nop();
-        p.inc(0); p.brr(-1);
+        p.inc(0); p.idle(rng);
         break;
     case 3: { // calls and a repeat, then idle
         p.call(SUB); p.rep((u8)rng.below(5)); p.inc(0); p.call(SUB);
         if (rng.chance(1, 2)) { p.dint(); p.nop(); p.eint(); }
-        p.brr(-1);
+        p.idle(rng);
         break;
     }
     case 4: { // block repeat (possibly nested), then idle
@@ -406,7 +412,7 @@ static Prog make_program(vh::Rng& rng, std::string& descr, bool io, int force_ki
             p.modr_inc(3);
             p.nop();
         }
-        p.brr(-1);
+        p.idle(rng);
         break;
     }
     case 6: { // poll the status registers, echo commands, feed the audio queue, clear semaphore bits
@@ -423,7 +429,7 @@ static Prog make_program(vh::Rng& rng, std::string& descr, bool io, int force_ki
         break;
     }
     case 7: // idle: everything happens in the handlers, woken by the host and the audio port
-        p.brr(-1);
+        p.idle(rng);
         break;
     case 8: { // mask / unmask the semaphore and read the mirrors in a counting loop
         u32 top = p.at;
@@ -460,7 +466,7 @@ static Prog make_program(vh::Rng& rng, std::string& descr, bool io, int force_ki
             if (rng.chance(1, 2)) p.mmio_read_to_r(0x112, 4);
         }
         p.inc(0);
-        p.brr(-1);
+        p.idle(rng);
         break;
     }
     case 10: // DMA transfers and the AHB bridge (the body is long: it lives behind the vectors)
@@ -513,7 +519,7 @@ static Prog make_loop_program(vh::Rng& rng, std::string& descr) {
         p.words[end_slot[k]] = (u16)(p.at - 1);
     }
     p.inc(1);
-    p.brr(-1);
+    p.idle(rng);
     return p;
 }
 
